@@ -10,6 +10,7 @@ import numpy as np
 from rv import core, zoo
 from rv.refmodels import logicle as ref
 
+ANCHORS = ['_LogicleTransform.__init__', '_LogicleTransform.transform_non_affine', '_InterpolatedInverseTransform.transform_non_affine', '_LogicleScale.limit_range_for_scale']      # functions the property is anchored in: never entered => inconclusive
 LEVEL = 'exploration'
 LEVEL_TEXT = 'Contract on the logicle transform against an independent reference (bisection root, extended-precision biexponential): forward values, monotonicity, zero at W, inverse round trip and monotonicity, documented derivation rules from data, refusals, and a real matplotlib axis. Exploration over a lattice + random triples.'
 TECHNIQUE = 'runtime contract on the logicle transform vs an independent extended-precision biexponential and bisection root'
